@@ -555,3 +555,81 @@ def g_z2rank(rng, level=0, n_random=400):
         if k % 3 == 0 and nr and nc:
             m = m * bits(rng, nr, nc)        # sparser: more missing pivots
         yield {'mat': m}
+
+
+def _rand_mask(rng, N, k):
+    """boolean vector over N qubits with exactly n >= 1 selected; k cycles through all small masks first"""
+    if N <= 3:
+        masks = [m for m in itertools.product([False, True], repeat=N) if any(m)]
+        return np.array(masks[k % len(masks)], dtype=bool)
+    m = np.zeros(N, dtype=bool)
+    m[rng.choice(N, size=int(rng.integers(1, N + 1)), replace=False)] = True
+    return m
+
+
+@gen(PA + 'PauliList.rotate_by#mask')
+def g_lrot_mask(rng, level=0, n_random=250):
+    pa, _ = _pc()
+    for k in range(n_random):
+        N = 1 + k % 5
+        mask = _rand_mask(rng, N, k // 5)
+        n = int(mask.sum())
+        L = int(rng.integers(0, 5))
+        yield {'self': pa.PauliList(bits(rng, L, 2 * N), rng.integers(0, 4, L).astype(np.int64)),
+               'generator': pa.Pauli(bits(rng, 2 * n), int(2 * rng.integers(0, 2))), 'mask': mask}
+
+
+@gen(PA + 'PauliList.transform_by#mask')
+def g_ltr_mask(rng, level=0, n_random=250):
+    pa, st = _pc()
+    for k in range(n_random):
+        N = 1 + k % 4
+        mask = _rand_mask(rng, N, k // 4)
+        n = int(mask.sum())
+        L = int(rng.integers(0, 5))
+        yield {'self': pa.PauliList(bits(rng, L, 2 * N), rng.integers(0, 4, L).astype(np.int64)),
+               'clifford_map': _rand_map(rng, n), 'mask': mask}
+
+
+@gen(U + 'mask')
+def g_mask(rng, level=0, n_random=200):
+    # all non-empty ascending qubit tuples for N <= 4, then random tuples (any order, repeats allowed) up to N = 8
+    for N in range(1, 5):
+        for n in range(1, N + 1):
+            for q in itertools.combinations(range(N), n):
+                yield {'qubits': q, 'N': N}
+    for _ in range(n_random):
+        N = int(rng.integers(1, 9))
+        yield {'qubits': tuple(int(x) for x in rng.integers(0, N, int(rng.integers(1, 5)))), 'N': N}
+
+
+def _local_qubits(rng, N):
+    n = int(rng.integers(1, N))
+    return tuple(sorted(int(x) for x in rng.choice(N, size=n, replace=False)))
+
+
+@gen(CI + 'CliffordGate.forward#generator_local')
+@gen(CI + 'CliffordGate.backward#generator_local')
+def g_gate_gen_local(rng, level=0, n_random=200):
+    import pyclifford.circuit as ci
+    pa, _ = _pc()
+    for _ in range(n_random):
+        N = int(rng.integers(2, 6))
+        q = _local_qubits(rng, N)
+        g = ci.CliffordGate(*q)
+        g.generator = pa.Pauli(bits(rng, 2 * len(q)), int(rng.integers(0, 4)))
+        L = int(rng.integers(0, 5))
+        yield {'self': g, 'obj': pa.PauliList(bits(rng, L, 2 * N), rng.integers(0, 4, L).astype(np.int64))}
+
+
+@gen(CI + 'CliffordGate.forward#map_local')
+def g_gate_map_local(rng, level=0, n_random=200):
+    import pyclifford.circuit as ci
+    pa, _ = _pc()
+    for _ in range(n_random):
+        N = int(rng.integers(2, 5))
+        q = _local_qubits(rng, N)
+        g = ci.CliffordGate(*q)
+        g.forward_map = _rand_map(rng, len(q))
+        L = int(rng.integers(0, 5))
+        yield {'self': g, 'obj': pa.PauliList(bits(rng, L, 2 * N), rng.integers(0, 4, L).astype(np.int64))}
